@@ -4,6 +4,7 @@ package main
 
 import (
 	"bufio"
+	"os"
 	"fmt"
 	"io"
 	"math/big"
@@ -56,11 +57,20 @@ func NewSolver(name string, tb *TB, timeoutMs int) (*Solver, error) {
 		return nil, err
 	}
 	s := &Solver{name: name, cmd: cmd, in: in, out: bufio.NewReaderSize(out, 1<<16), emitted: map[int32]bool{}, tb: tb, timeout: timeoutMs}
+	if p := os.Getenv("VX_SMTLOG"); p != "" {
+		f, err := os.Create(p)
+		if err == nil {
+			s.log = f
+		}
+	}
 	s.preamble()
 	return s, nil
 }
 
 func (s *Solver) preamble() {
+	if s.log != nil {
+		fmt.Fprintf(s.log, "(reset)\n(set-option :timeout %d)\n(set-option :produce-models true)\n", s.timeout)
+	}
 	if s.name != "cvc5" {
 		fmt.Fprintf(s.in, "(set-option :timeout %d)\n", s.timeout)
 	} else {
